@@ -63,6 +63,9 @@ type Scen struct {
 	// store that cannot be loaded fails authenticity whatever the other stores hold), otherwise
 	// they hold an unrelated root. "" none, "after", "before", "around"
 	MoreStores string `json:"moreStores,omitempty"`
+	// SharedMeta: the in-process plugin answers every get-plugin-metadata call with the same
+	// capability slice (what it was lent back must not have been changed by an earlier verification)
+	SharedMeta bool `json:"sharedMeta,omitempty"`
 	// Warm: an earlier verification on the SAME verifier with another envelope (other expiry /
 	// certificate times / attributes); it is not judged and must not influence the judged one
 	Warm *Warm `json:"warm,omitempty"`
@@ -78,7 +81,7 @@ type Warm struct {
 }
 
 func (s *Scen) fp() uint64 {
-	return stats.Fingerprint(s.Level.Key(), s.Level.String(), s.Scheme, s.Format, s.Trust, s.Identity, s.Expiry, s.CertTime, s.Rev, s.Plugin, s.MinVer, s.TIVerdict, s.RVVerdict, s.PluginErr, s.Crit, s.CritInt, s.CritKeyKind, s.CapOrder, s.Filler, s.FillerProcessed, s.BlobTwin, s.MoreStores, fmt.Sprintf("%+v", s.Warm))
+	return stats.Fingerprint(s.Level.Key(), s.Level.String(), s.Scheme, s.Format, s.Trust, s.Identity, s.Expiry, s.CertTime, s.Rev, s.Plugin, s.MinVer, s.TIVerdict, s.RVVerdict, s.PluginErr, s.Crit, s.CritInt, s.CritKeyKind, s.CapOrder, s.Filler, s.FillerProcessed, s.BlobTwin, s.MoreStores, s.SharedMeta, fmt.Sprintf("%+v", s.Warm))
 }
 
 const pluginName = "verif-plugin"
@@ -318,7 +321,7 @@ func realise(s *Scen) (*run, error) {
 		rev.Err = errors.New("scripted validator error")
 		rev.ErrWithResults = s.CapOrder%2 == 1
 	}
-	plug := &mocks.Plugin{Name: pluginName, Version: pluginVersion, Verdicts: map[pf.Capability]string{
+	plug := &mocks.Plugin{Name: pluginName, Version: pluginVersion, SharedMeta: s.SharedMeta, Verdicts: map[pf.Capability]string{
 		pf.CapabilityTrustedIdentityVerifier: s.TIVerdict, pf.CapabilityRevocationCheckVerifier: s.RVVerdict}}
 	if s.PluginErr {
 		plug.VerifyErr = errors.New("scripted plugin failure")
@@ -383,6 +386,8 @@ func realise(s *Scen) (*run, error) {
 		twinIDs := []string{ids[s.Identity]}
 		if s.BlobTwin == "skip" {
 			opts.BlobTrustPolicy = kit.BlobDoc("p", kit.Level{Base: "skip"}.SV(""), nil, nil)
+		} else if s.BlobTwin == "strict-revocation-skipped" {
+			opts.BlobTrustPolicy = kit.BlobDoc("p", kit.LevelFor("strict", map[string]string{"authenticity": "enforce", "authenticTimestamp": "enforce", "expiry": "enforce", "revocation": "skip"}, false).SV(""), []string{storeType + ":x"}, twinIDs)
 		} else {
 			opts.BlobTrustPolicy = kit.BlobDoc("p", kit.Level{Base: s.BlobTwin}.SV(""), []string{storeType + ":x"}, twinIDs)
 		}
@@ -576,6 +581,9 @@ func classes(s *Scen, v verdict) []string {
 	if s.BlobTwin != "" {
 		cl = append(cl, "blob-statement-with-same-name", "blob-twin-level="+s.BlobTwin)
 	}
+	if s.SharedMeta && s.Plugin != "none" {
+		cl = append(cl, "plugin-answers-metadata-with-one-shared-slice")
+	}
 	if s.MoreStores != "" {
 		cl = append(cl, "several-listed-stores")
 		if s.Trust == "loaderr" {
@@ -666,7 +674,8 @@ func drawScen(rt *rapid.T) *Scen {
 		s.CritKeyKind = rp.Pick(rt, "critKeyKind", "", "", "header-prefix", "minver-prefix")
 	}
 	s.Filler = rp.Pick(rt, "filler", "", "", "", "before", "after", "both")
-	s.BlobTwin = rp.Pick(rt, "blobTwin", "", "", "", "", "strict", "permissive", "audit", "skip")
+	s.BlobTwin = rp.Pick(rt, "blobTwin", "", "", "", "", "strict", "permissive", "audit", "skip", "strict-revocation-skipped", "strict-revocation-skipped")
+	s.SharedMeta = rapid.Bool().Draw(rt, "sharedMeta")
 	s.FillerProcessed = s.Filler != "" && rapid.Bool().Draw(rt, "fillerProcessed")
 	s.MoreStores = rp.Pick(rt, "moreStores", "", "", "", "after", "after", "before", "around")
 	if rapid.IntRange(0, 3).Draw(rt, "warm") == 0 {
